@@ -223,7 +223,7 @@ def binding_demo(ctx, run, ev):
     for s, es in segs.items():
         ops = [e for e in es if e["e"] == "Op"]
         views = [e for e in es if e["e"] == "View"]
-        if es[0].get("upper") and es[0].get("nl", 0) >= 1 and any(o["st"] == 0 and o["op"] != "rename" for o in ops) and all(len(v["rows"]) > 0 for v in views[1:3]) and len(views) > 2:
+        if es[0].get("upper") and es[0].get("nl", 0) >= 1 and any(o["st"] == 0 and o["op"] != "rename" for o in ops) and all(len(v["rows"]) > 0 for v in views[0:3]) and len(views) > 2:
             pick = es
             break
     if pick is None:
